@@ -96,7 +96,18 @@ def compare(ctx, A, B, mode, label, fam, K, cross, res, meaning, config='A', imp
         if r != 'unsat':
             res['inconclusive'].append('%s: bounded query says %s but the inductive certificate holds' % (label, r))
         return True
-    # a difference: confirm with the solver when short enough, then against the real constructor
+    # a difference: the solver decides it (the explored relation, including the
+    # offending pair, is not an acceptance-respecting closed relation: sat), and
+    # re-decides it as a bounded query with a witness when the string is short
+    st = []
+    r = smt.inductive(A, B, R, mode, label + ' [inductive: explored relation is NOT a certificate]', st, False)
+    for q in st:
+        q['ok'] = False
+        q['nontrivial'] = True
+    res['queries'] += st
+    if r != 'sat':
+        res['inconclusive'].append('%s: product exploration found a difference but the solver does not (%s)' % (label, r))
+        return False
     st = []
     w2 = None
     if len(witness) <= max(K, 12):
@@ -109,7 +120,7 @@ def compare(ctx, A, B, mode, label, fam, K, cross, res, meaning, config='A', imp
     text = sym_text(fam, syms)
     v = dict(property=res['pid'], kind='language', question=label, meaning=meaning, config=config, family=fam,
              witness_symbols=syms, witness_hex=text.hex(), witness_text=text.decode('utf-8', 'replace'),
-             solver_confirmed=w2 is not None)
+             solver_confirmed=True, solver_witness=w2 is not None)
     if impl_type:
         real = real_verdict(ctx, impl_type[0], impl_type[1], text, config)
         model = A.accepts(syms) if impl_type == (fam, impl_type[1]) else None
